@@ -37,12 +37,13 @@ def cfg_text(consts: dict, invariants=(), spec="Spec", view=None, extra="") -> s
         lines.append(f"VIEW {view}")
     if extra:
         lines.append(extra)
+    lines.append("CHECK_DEADLOCK FALSE")
     return "\n".join(lines) + "\n"
 
 
 BASE = {"MaxN": 8, "MaxP": 0, "MaxD": 0, "PType": 1, "PoolS": "Empty", "PoolP": "Empty", "PoolO": "Empty",
         "PoolG": "Empty", "NsPool": "Empty", "NsDecl": False, "FrameSize": 0, "CheckFits": True,
-        "AllowReject": False, "HistLen": 0}
+        "AllowReject": False, "HistLen": 0, "PoisonOnReject": True}
 
 
 def consts(**kw) -> dict:
@@ -156,8 +157,8 @@ def abs_term(t, sub: Subst):
         return ("dg",)
     if k == "qt":
         return ("qt", abs_term(t[1], sub), abs_term(t[2], sub), abs_term(t[3], sub))
-    if k == "bad":
-        return ("bad",)
+    if k in ("bad", "end"):
+        return (k,)
     raise ValueError(t)
 
 
@@ -269,6 +270,8 @@ def replay_stepwise(beh: dict, c: dict, sub: Subst, *, integ="generic", delimite
             i += 1
         elif kind in ("stmt", "reject") and ptype != 3:
             st = [abs_term(t, sub) for t in op["st"]]
+            if ("end",) in st:                      # malformed tuple: it simply ends early
+                st = st[:st.index(("end",))]
             tt = [to_impl_term(t, integ) for t in st]
             try:
                 fr = stream.quad(tt) if ptype == 2 else stream.triple(tt)
